@@ -239,3 +239,44 @@ Proof.
       * right. rewrite Hx. apply str_eqb_refl.
   - split; [discriminate|]. intros [b [H _]]. discriminate.
 Qed.
+
+(* ---- histories: attempts that do not save leave no trace, so a retry behaves as a first try ---- *)
+Section History.
+Variables (S text content enc : Type).
+Variable decodes : enc -> content -> option text.
+Variable load : str -> text -> option S.
+Variable ser : S -> option text.
+Variable encode : enc -> text -> option content.
+Variable empty : content.
+Notation fs := (list (str * content)).
+Notation open_detect := (open_detect S text content enc str_eqb decodes load).
+Notation mutate := (mutate S text content enc str_eqb decodes load ser encode empty).
+
+Record attempt := { a_cfg : config enc; a_body : S -> body_outcome S; a_fault : step -> bool }.
+Definition attempt_result (f : fs) (a : attempt) : fs * option exn := mutate (a_cfg a) f (a_body a) (a_fault a).
+Definition run_attempts (f : fs) (l : list attempt) : fs := fold_left (fun f a => fst (attempt_result f a)) l f.
+
+(* an attempt that does not save: it ends with an exception that is not a file-system fault (cannot be decoded, loaded,
+   serialised or encoded; a name clash; an exception from the body), or its body cancelled the mutation *)
+Definition not_saving (f : fs) (a : attempt) : Prop :=
+  (exists e, snd (attempt_result f a) = Some e /\ e <> XFault) \/
+  (exists s en, backup_clash enc str_eqb (a_cfg a) = false /\ open_detect (c_encs enc (a_cfg a)) f (c_input enc (a_cfg a)) = Done (s, en) /\
+                (c_backup enc (a_cfg a) <> None -> ser s <> None) /\ a_body a s = BCancel).
+
+Lemma not_saving_unchanged f a : not_saving f a -> fst (attempt_result f a) = f.
+Proof.
+  intros [(e & He & Hne)|(s & en & Hc & Ho & Hs & Hb)]; unfold attempt_result in *.
+  - destruct (mutate (a_cfg a) f (a_body a) (a_fault a)) as [f' r] eqn:E. simpl in He. subst r. simpl.
+    exact (mutate_no_write_no_change S text content enc decodes load ser encode empty _ _ _ _ _ _ E Hne).
+  - rewrite (mutate_cancelled S text content enc decodes load ser encode empty _ _ _ (a_fault a) s en Hc Ho Hs Hb). reflexivity.
+Qed.
+
+Theorem failed_attempts_leave_no_trace f l : Forall (not_saving f) l -> run_attempts f l = f.
+Proof.
+  unfold run_attempts. induction l as [|a l IH]; intro H; [reflexivity|]. cbn [fold_left].
+  inversion H as [|a' l' Ha Hl]; subst. rewrite (not_saving_unchanged f a Ha). apply IH. exact Hl.
+Qed.
+
+Corollary retry_as_first_try f l a : Forall (not_saving f) l -> attempt_result (run_attempts f l) a = attempt_result f a.
+Proof. intro H. rewrite (failed_attempts_leave_no_trace f l H). reflexivity. Qed.
+End History.
